@@ -312,6 +312,8 @@ def run_model_many(cases):
 # ---------------------------------------------------------------- comparison
 WARN_RE = re.compile(rb"Warning on line (\d+) column (\d+):[^\n]*\n")
 def canon_out(b):
+    # the sign of a NaN is not observable in the model (Float.toBits canonicalises NaNs) and no property speaks about it
+    b = b.replace(b"-nan", b"nan")
     return WARN_RE.sub(lambda m: b"\x1fW" + m.group(1) + b":" + m.group(2) + b"\n", b)
 
 def user_files(files):
